@@ -403,7 +403,7 @@ M('C03', 'rerun body filtered after the freeze', 'evaluable.py',
   "        first_run = _pyast.Variable('first_run')\n        # Make all cached results immutable.\n        for v in cache_vars:\n            main.append(_pyast.Exec(v.get_attr('setflags').call(write=_pyast.LiteralBool(False))))\n        main_rerun = main.filter(lambda stmts: _pyast.Block() if stmts in rerun_skip_blocks else None)\n", rule='R03.2')
 M('C03', 'Guard becomes cacheable', 'evaluable.py', "    @property\n    def isconstant(self):\n        return False  # avoid simplifications", "    @property\n    def isconstant(self):\n        return self.fun.isconstant  # avoid simplifications", rule='R03.3')
 M('C03', 'Loop.arguments keeps the index of another loop', 'evaluable.py', "        return super().arguments - frozenset({self.index})", "        return super().arguments - frozenset({self.index, self.length})", rule='R03.3')
-M('C03', 'argument ingested without asarray', 'evaluable.py', "        block.assign_to(out, _pyast.Variable('numpy').get_attr('asarray').call(builder.get_argument(self.name), dtype=self.ast_dtype))", "        block.assign_to(out, builder.get_argument(self.name))", rule='R03.4')
+M('C03', 'argument ingested without asarray', 'evaluable.py', "        block.assign_to(out, _pyast.Variable('numpy').get_attr('asarray').call(builder.get_argument(self.name)).get_attr('astype').call(self.ast_dtype, casting=_pyast.LiteralStr('same_kind'), copy=_pyast.LiteralBool(False)))", "        block.assign_to(out, builder.get_argument(self.name))", rule='R03.4')
 M('C03', 'System caches a non-constant jacobian', 'solver.py', "                jac = matrix.assemble_block_csr(jac_blocks)\n            res = numpy.concatenate(res_blocks)\n            res += jac @ numpy.concatenate(",
   "                jac = matrix.assemble_block_csr(jac_blocks)\n                self.__cache['jacobian'] = jac\n            res = numpy.concatenate(res_blocks)\n            res += jac @ numpy.concatenate(", rule='R03.5')
 M('C06', 'InRange guard uses the upper bound of the length', 'evaluable.py', "        if 0 <= lower_index <= upper_index < lower_length:\n            return self.index", "        if 0 <= lower_index <= upper_index < upper_length:\n            return self.index", rule='R06.1')
@@ -488,13 +488,13 @@ M('C06', 'SearchSorted upper bound one too small', 'evaluable.py', "        retu
 M('C06', 'Replace filters after joining', 'function.py', "        unreplaced = {name: shape_dtype for name, shape_dtype in arg.arguments.items() if name not in self._replacements}\n        arguments = _join_arguments([unreplaced] + [replacement.arguments for replacement in self._replacements.values()])",
   "        joined = _join_arguments([arg.arguments] + [replacement.arguments for replacement in self._replacements.values()])\n        arguments = {name: shape_dtype for name, shape_dtype in joined.items() if name not in self._replacements}", rule='R06.5')
 M('C07', 'eigh eigenvectors announce the operand dtype', 'function.py', "shape=a.shape, dtype=float if a.dtype != complex else complex)", "shape=a.shape, dtype=a.dtype)", rule='R07.4')
-M('C07', 'take normalises negative indices in the caller array', 'function.py', "            indices = numpy.array(indices)\n            indices[indices < 0] += length", "            indices = numpy.asarray(indices)\n            indices[indices < 0] += length", rule='R07.5')
+M('C07', 'take normalises negative indices in the caller array', 'function.py', "            indices = numpy.array(indices)\n            if indices.dtype.kind not in 'biu' and indices.size:\n                raise IndexError('arrays used as indices must be of integer or boolean type')\n            indices = indices.astype(int)\n            indices[indices < 0] += length", "            indices = numpy.asarray(indices)\n            if indices.dtype.kind not in 'biu' and indices.size:\n                raise IndexError('arrays used as indices must be of integer or boolean type')\n            indices[indices < 0] += length", rule='R07.5')
 M('C07', 'slice stop 0 treated as negative', 'function.py', "        stop = n if s.stop is None else s.stop if s.stop >= 0 else s.stop + n\n        if start == 0 and stop == n:\n            return array\n        length = stop - start", "        stop = n if s.stop is None else s.stop if s.stop > 0 else s.stop + n\n        if start == 0 and stop == n:\n            return array\n        length = stop - start", rule='R07.6')
 M('C07', 'revert F13: matmul without alignment check', 'function.py', "        if arg1.shape[-1] != arg2.shape[-1 if arg2.ndim == 1 else -2]:\n            raise ValueError(f'shapes {arg1.shape} and {arg2.shape} are not aligned')\n        if arg2.ndim == 1:", "        if arg2.ndim == 1:", rule='R07.7')
 M('C02', 'LoopSum compiles in place before out exists', 'evaluable.py', "        if out_block_id > builder.get_block_id(self.index):\n            # The loop body comes before the definition of `out`.\n            return NotImplemented\n        if mode == 'assign':", "        if mode == 'assign':", rule='R02.3')
 M('C20', 'locate: maxdist guard compares the tol dimension', 'SI.py', "        if not (dimmaxdist == Dimensionless and maxdist is None or dimmaxdist == dimgeom):", "        if not (dimmaxdist == Dimensionless and maxdist is None or dimtol == dimgeom):", rule='R20.1')
 M('C20', 'mod moved to the quotient rule', 'SI.py', "    @register(operator.mod)\n    @register(operator.sub)\n    def __add_like", "    @register(operator.sub)\n    def __add_like", expect='silent')
-M('C07', 'revert F15: vdot broadcasts its operands', 'function.py', "        a = Array.cast(a)\n        b = Array.cast(b)\n        if a.shape != b.shape:\n            if a.size != b.size:\n                raise ValueError(f'shapes {a.shape} and {b.shape} differ in size')\n            a = numpy.ravel(a)\n            b = numpy.ravel(b)\n        return numpy.sum(numpy.conjugate(a) * b, range(a.ndim))",
+M('C07', 'revert F15: vdot broadcasts its operands', 'function.py', "        a = Array.cast(a)\n        b = Array.cast(b)\n        if a.shape != b.shape:\n            if a.size != b.size:\n                raise ValueError(f'shapes {a.shape} and {b.shape} differ in size')\n            a = numpy.ravel(a)\n            b = numpy.ravel(b)\n        return _contract(numpy.conjugate(a) * b, range(a.ndim))",
   "        a, b = broadcast_arrays(a, b)\n        return numpy.sum(numpy.conjugate(a) * b, range(a.ndim))", rule='R07.7')
 M('C07', 'vdot broadcasts before comparing sizes', 'function.py', "        a = Array.cast(a)\n        b = Array.cast(b)\n        if a.shape != b.shape:\n            if a.size != b.size:", "        a, b = broadcast_arrays(a, b)\n        if a.shape != b.shape:\n            if a.size != b.size:", rule='R07.7')
 M('C07', 'dot without alignment check', 'function.py', "        if a.shape[-1] != b.shape[-1 if b.ndim == 1 else -2]:\n            raise ValueError(f'shapes {a.shape} and {b.shape} are not aligned')\n        if b.ndim > 1:", "        if b.ndim > 1:", rule='R07.7')
@@ -563,3 +563,9 @@ M('C14', 'Newton reports the residual of the previous state', 'solver.py', "    
 M('C14', 'ReuseNewton keeps the old residual norm for the new state', 'solver.py', "                resnorm = newresnorm\n                res = newres\n                x = newx\n                yield system.construct(arguments, x), resnorm", "                res = newres\n                x = newx\n                yield system.construct(arguments, x), resnorm\n                resnorm = newresnorm", rule='R14.8')
 M('C14', 'LinesearchNewton hands out the rejected trial state', 'solver.py', "                if relax <= self.failrelax:\n                    raise SolverError('stuck in local minimum')\n            x = newx\n\n\nclass Minimize", "                if relax <= self.failrelax:\n                    raise SolverError('stuck in local minimum')\n            x = x + dx\n\n\nclass Minimize", rule='R14.8')
 M('C14', 'benign: Newton names the norm first', 'solver.py', "            jac, res = system.assemble_jacobian_residual(arguments, x)\n            yield system.construct(arguments, x), numpy.linalg.norm(res)\n            x -= jac.solve_leniently(res, **linargs)\n\n\nclass ReuseNewton", "            jac, res = system.assemble_jacobian_residual(arguments, x)\n            resnorm = numpy.linalg.norm(res)\n            yield system.construct(arguments, x), resnorm\n            x -= jac.solve_leniently(res, **linargs)\n\n\nclass ReuseNewton", expect='silent')
+M('C07', 'revert F25: choose hands any selector to Choose', 'function.py', "        a = Array.cast(a)\n        if a.dtype == bool:\n            a = a.astype(int)\n        elif a.dtype != int:\n            raise TypeError('the index array of choose must be integer or boolean')\n        a, *choices = broadcast_arrays", "        a, *choices = broadcast_arrays", rule='R07.9')
+M('C07', 'revert F26: take accepts index arrays of any kind', 'function.py', "            if indices.dtype not in (bool, int):\n                raise IndexError('arrays used as indices must be of integer or boolean type')\n            indices = _Wrapper.broadcasted_arrays(evaluable.NormDim, length, indices)", "            indices = _Wrapper.broadcasted_arrays(evaluable.NormDim, length, indices)", rule='R07.9')
+M('C07', 'revert F27: dot reduces with numpy.sum', 'function.py', "        return _contract(a * b, -1)", "        return numpy.sum(a * b, -1)", rule='R07.11')
+M('C07', 'contraction helper forgets the boolean case', 'function.py', "    return numpy.greater(summed, 0) if arg.dtype == bool else summed", "    return summed", rule='R07.11')
+M('C07', 'revert F28: abs of booleans goes down the sign chain', 'function.py', "        arg = Array.cast(arg)\n        if arg.dtype == bool:\n            return arg\n        return _Wrapper(evaluable.abs", "        arg = Array.cast(arg)\n        return _Wrapper(evaluable.abs", rule='R07.11')
+M('C07', 'benign: einsum tests the boolean kind itself', 'function.py', "        return _contract(util.product(factors), range(len(axes)-len(out)))", "        prod = util.product(factors)\n        summed = numpy.sum(prod, range(len(axes)-len(out)))\n        return numpy.greater(summed, 0) if prod.dtype == bool else summed", expect='silent')
